@@ -132,7 +132,8 @@ class Contract:
     def __init__(self, module, file, qual, params, ret=None, yields=None, requires=(), ensures=(), raises=None,
                  raises_ensures=None, locals=None, loops=None, calls=None, globals=None, modifies=(), defaults=None,
                  ignore_kwargs=False, star=None, exc_parents=None, comp_types=None, canaries=(), properties=(),
-                 trusted=False, note="", receiver_classes=None, use=(), inputs=None, native_fn=None, shards=1, native_frame_skip=()):
+                 trusted=False, note="", receiver_classes=None, use=(), inputs=None, native_fn=None, shards=1, native_frame_skip=(), callable_recv=False):
+        self.callable_recv = callable_recv
         self.shards = shards
         self.native_frame_skip = list(native_frame_skip)
         self.use = list(use)
@@ -315,6 +316,8 @@ def gen_function_vcs(contract, registry, feasible=None, extra_post=None):
             if o.exc not in contract.raises:
                 ctx.oblige("raises", fst, z3.BoolVal(False), o.line, "exception %s is not allowed by the contract" % o.exc)
                 continue
+            if not contract.raises[o.exc]:
+                ctx.oblige("raises", fst, z3.BoolVal(True), o.line, "raises[%s] is allowed unconditionally" % o.exc, force=True)
             ost = State({k[4:]: v for k, v in fst.env.items() if k.startswith("old:")}, fst.pc)
             for k, v in fst.env.items():
                 if k.startswith("old:"):
